@@ -269,6 +269,7 @@ func PropC20(c *vs.Case, kind string, env *C20Env, drv C20Driver) error {
 	objects := map[string]*c20Spec{} // name -> spec of the stored controller object
 	instances := map[string]string{} // name -> instance identity as of the last check
 	stopped := map[string]time.Time{} // url prefix -> when that instance had to be gone
+	history := map[string][]c20Spec{} // name -> valid specs it has had
 	var log []string
 	c.Describe(func() any { return map[string]any{"kind": kind, "names": names, "events": log} })
 	version := 0
@@ -315,7 +316,27 @@ func PropC20(c *vs.Case, kind string, env *C20Env, drv C20Driver) error {
 			objects[name] = &s
 			what = fmt.Sprintf("create %s v%d (%s)", name, s.Version, s.Variant)
 		default:
-			switch c.Weighted(3, 2, 2) {
+			switch c.Weighted(3, 2, 2, 1) {
+			case 3:
+				// back to a spec this name has run before (same webhook URL: metrics collectors, ETag caches are re-created)
+				hist := history[name]
+				if len(hist) == 0 {
+					continue
+				}
+				s := hist[c.Int(len(hist))]
+				if s.Version == cur.Version {
+					continue
+				}
+				if err := put(name, s, nil, false); err != nil {
+					return fmt.Errorf("harness: %v", err)
+				}
+				objects[name] = &s
+				what = fmt.Sprintf("update spec of %s back to v%d (%s)", name, s.Version, s.Variant)
+				if model[name] != nil {
+					nontrivial = true
+				}
+				// an instance with this URL was stopped earlier; it is legitimately alive again
+				delete(stopped, s.urlPrefix(name))
 			case 0:
 				version++
 				s := genC20Spec(c, version)
@@ -352,6 +373,17 @@ func PropC20(c *vs.Case, kind string, env *C20Env, drv C20Driver) error {
 		// the model: what must be running after this event is reconciled
 		prev := model[name]
 		obj := objects[name]
+		if obj != nil && obj.Valid {
+			seen := false
+			for _, h := range history[name] {
+				if h.Version == obj.Version {
+					seen = true
+				}
+			}
+			if !seen {
+				history[name] = append(history[name], *obj)
+			}
+		}
 		startable := obj != nil && obj.Valid && !(kind == "composite" && obj.Parent == "plains")
 		switch {
 		case obj == nil:
